@@ -496,3 +496,55 @@ def r3e(ctx: Ctx) -> list[Ob]:
     else:
         out.append(viol("R3e", h.qualname, "reads-map", "does not read _compiled_parameters[p]", h.loc))
     return out
+
+
+# ----------------------------------------------------------------------------- R3g: index-free shortcuts
+FOLDING = "cirkit.backend.torch.graph.folding"
+
+
+def _is_index_free(v: ast.AST) -> bool:
+    """`()`, `(None,)`, `(slice(None), None)` ... : an address-book 'index' that gathers nothing"""
+    if isinstance(v, ast.Tuple):
+        return all(
+            (isinstance(e, ast.Constant) and e.value is None)
+            or (isinstance(e, ast.Call) and isinstance(e.func, ast.Name) and e.func.id == "slice")
+            for e in v.elts
+        )
+    return False
+
+
+def r3g(ctx: Ctx) -> list[Ob]:
+    """R3g: the address-book builders may replace a gather index by an index-free form (no indexing,
+    an unsqueeze) only when the cumulative index equals the *whole* fold range of its source(s): the
+    bound of the ``range`` it is compared with derives from ``num_folds`` (the sources' fold counts),
+    not from the length of the request.  A prefix ``[0..k)`` of a module with more than k folds
+    compares equal to ``range(k)`` and would otherwise hand the consumer all folds."""
+    out: list[Ob] = []
+    for fname in ("build_address_book_entry", "build_address_book_stacked_entry"):
+        f = ctx.repo.func(f"{FOLDING}.{fname}")
+        ld = LocalDefs(f.node)
+        # index-free values that are assigned / put into a returned entry
+        shortcuts = [n for n in ast.walk(f.node) if _is_index_free(n) and isinstance(getattr(n, "ctx", None), ast.Load)]
+        if not shortcuts:
+            out.append(ok("R3g", f.qualname, "shortcut", "no index-free shortcut in this builder", f.loc, nontrivial=False))
+            continue
+        ranges: list[ast.AST] = []
+        for n in ast.walk(f.node):
+            if isinstance(n, ast.Compare) and len(n.ops) == 1 and isinstance(n.ops[0], ast.Eq):
+                for side in (n.left, n.comparators[0]):
+                    e = side
+                    if isinstance(e, ast.Call) and isinstance(e.func, ast.Name) and e.func.id == "list" and len(e.args) == 1:
+                        e = e.args[0]
+                    if isinstance(e, ast.Call) and isinstance(e.func, ast.Name) and e.func.id == "range" and len(e.args) == 1:
+                        ranges.append(e.args[0])
+        if not ranges:
+            out.append(unres("R3g", f.qualname, "shortcut", "index-free shortcuts without a `== list(range(n))` comparison (another formulation): no verdict", f.loc))
+            continue
+        for i, bound in enumerate(ranges):
+            names = {x.id for e in ld.expand(bound) for x in ast.walk(e) if isinstance(x, ast.Name)}
+            inst = f"full-range#{i}:{unparse(bound)[:40]}"
+            if "num_folds" in names:
+                out.append(ok("R3g", f.qualname, inst, "the compared range is bounded by the sources' fold counts (num_folds)", f.loc))
+            else:
+                out.append(viol("R3g", f.qualname, inst, f"the index-free shortcut compares the cumulative index with range({unparse(bound)}), which does not derive from num_folds: selecting a prefix of a module with more folds is mistaken for 'all of it'", f.loc))
+    return out
